@@ -129,6 +129,26 @@ Theorem chunking_independent_uni_control_fin_refuted :
 Proof. exact ctrl_fin_refuted. Qed.
 Print Assumptions chunking_independent_uni_control_fin_refuted.
 
+(* streams the decoder reports as unblocked (after an encoder-stream delivery) are resumed one after the other: the ids
+   of two deliveries concatenated = the two resume passes in sequence (same oracle) *)
+Theorem unblocked_streams_sequential :
+  forall fx O l1 l2 c evs,
+  unblock fx O c (l1 ++ l2) evs =
+  match unblock fx O c l1 evs with SVal e c' => unblock fx O c' l2 e | r => r end.
+Proof. exact unblock_app. Qed.
+Print Assumptions unblocked_streams_sequential.
+
+(* blocked / resume, one concrete exchange only (the general statement is NOT proved, see docs/C14.md) *)
+Theorem blocked_resume_example_agrees :
+  events_all (run all_fixed (conn_init true true)
+     [(QStream 0 [1; 1; 0; 0; 2; 97] false, o_wait); (QStream 0 [98] true, o_wait); (QStream 7 [2; 1] false, o_arrived)])
+  = [AHeaders 0 None 1; AByte 0 None 97; AByte 0 None 98; AEnd 0] /\
+  events_all (run all_fixed (conn_init true true)
+     [(QStream 7 [2; 1] false, oracle1); (QStream 0 [1; 1; 0; 0; 2; 97; 98] true, oracle1)])
+  = [AHeaders 0 None 1; AByte 0 None 97; AByte 0 None 98; AEnd 0].
+Proof. exact blocked_resume_example. Qed.
+Print Assumptions blocked_resume_example_agrees.
+
 (* Lemmas used on the way (kept; they were the partial result of the first round), proved for ALL inputs,
    for the model of the patched code (fx_trunc, fx_endmark).
    (1) a delivery x that leaves the parser where it was (it stops inside a frame header or inside the payload of a
